@@ -57,7 +57,8 @@ def alias_import(src):
         def leave_ImportFrom(s,o,u): s.in_import-=1; return u
         def visit_Attribute(s,n): return True
         def leave_Attribute(s,o,u):
-            return u
+            # the attribute NAME (x.<attr>) is not a use of the module binding: keep it (datetime.datetime -> datetime_al.datetime)
+            return u.with_changes(attr=o.attr)
         def leave_Name(s,o,u):
             if s.in_import==0 and u.value==mod: return u.with_changes(value=al)
             return u
@@ -303,5 +304,25 @@ def local_decoy(src, imports):
     head, body = split_head(src)
     out = head + decoy + body
     try: compile(out, "<decoy>", "exec")
+    except SyntaxError: return None
+    return out
+
+def mixed_imports(src):
+    """one file reaching the same module through different bindings: the seed as written, its `import m as m_al` form and its `from m import f` form, one after the other"""
+    parts = [src]
+    for fn in (alias_import, from_import):
+        try: v = fn(src)
+        except Exception: v = None
+        if v and v != src: parts.append(v)
+    if len(parts) < 2: return None
+    heads, bodies = [], []
+    for p_ in parts:
+        h, b = split_head(p_); heads.append(h); bodies.append(b if b.endswith("\n") else b + "\n")
+    hl = []
+    for h in heads:
+        for l in h.splitlines(keepends=True):
+            if l not in hl or not l.strip(): hl.append(l)
+    out = "".join(hl) + "\nVF_MIXED = 0\n".join(bodies)
+    try: compile(out, "<mixed>", "exec")
     except SyntaxError: return None
     return out
